@@ -58,6 +58,7 @@ func programs() []*progen.Program {
 	// wildcard bindings and struct-typed pipeline outputs
 	add(wildcardProgram())
 	add(wildcardStructProgram())
+	add(unreferencedChainProgram())
 	add(retainOnlyProgram())
 	add(multiAliasProgram())
 	return out
@@ -217,6 +218,42 @@ func wildcardTouched(ast *syntax.Ast) map[string]bool {
 		}
 	}
 	return t
+}
+
+// unreferencedChainProgram: an output that is only used inside a pipeline
+// which itself has no outputs (so nothing refers to that pipeline), reached
+// through two pass-through levels; and a pipeline input typed as the output
+// struct of a stage, projected inside (self.foo.sum).
+func unreferencedChainProgram() *progen.Program {
+	p := progen.Dataflow(progen.DataflowParams{Kind: "int", Src: "gen", Size: 2, Cons: "add"})
+	if p == nil {
+		return nil
+	}
+	I := progen.IntT
+	p.Stages = append(p.Stages, &progen.Stage{Name: "USE", Fn: "PRE", Ins: []progen.Param{{T: I, Name: "c"}}})
+	inner := &progen.Pipeline{Name: "INNER", Ins: []progen.Param{{T: I, Name: "a"}}, Outs: []progen.Param{{T: I, Name: "o"}},
+		Calls: []*progen.Call{{Callee: "ADD", Binds: []progen.Bind{{"a", progen.Self("a")}, {"b", progen.Lit(progen.Int(1))}}}},
+		Ret:   []progen.Bind{{"o", progen.Ref("ADD", "sum")}}}
+	wrap := &progen.Pipeline{Name: "WRAP", Ins: []progen.Param{{T: I, Name: "a"}}, Outs: []progen.Param{{T: I, Name: "o"}},
+		Calls: []*progen.Call{{Callee: "INNER", Binds: []progen.Bind{{"a", progen.Self("a")}}}},
+		Ret:   []progen.Bind{{"o", progen.Ref("INNER", "o")}}}
+	mid := &progen.Pipeline{Name: "MID", Ins: []progen.Param{{T: I, Name: "a"}},
+		Calls: []*progen.Call{
+			{Callee: "WRAP", Binds: []progen.Bind{{"a", progen.Self("a")}}},
+			{Callee: "USE", Binds: []progen.Bind{{"c", progen.Ref("WRAP", "o")}}}}}
+	// a pipeline taking the output struct of ADD and projecting a member
+	proj := &progen.Pipeline{Name: "PROJ", Ins: []progen.Param{{T: progen.StructT("ADD"), Name: "foo"}}, Outs: []progen.Param{{T: I, Name: "r"}},
+		Calls: []*progen.Call{{Callee: "ADD", Alias: "AGAIN", Binds: []progen.Bind{{"a", progen.Self("foo", "sum")}, {"b", progen.Lit(progen.Int(2))}}}},
+		Ret:   []progen.Bind{{"r", progen.Ref("AGAIN", "sum")}}}
+	top := p.Pipeline("TOP")
+	top.Calls = append(top.Calls,
+		&progen.Call{Callee: "MID", Binds: []progen.Bind{{"a", progen.Self("n")}}},
+		&progen.Call{Callee: "PROJ", Binds: []progen.Bind{{"foo", progen.Ref("ADD")}}})
+	top.Outs = append(top.Outs, progen.Param{T: I, Name: "pr"})
+	top.Ret = append(top.Ret, progen.Bind{"pr", progen.Ref("PROJ", "r")})
+	p.Pipelines = append([]*progen.Pipeline{inner, wrap, mid, proj}, p.Pipelines...)
+	p.Desc = "unreferenced-chain-and-callable-struct-input"
+	return p
 }
 
 func compile(src string) (*syntax.Ast, error) {
